@@ -53,6 +53,12 @@ CHECKS = {
     "C12": ("exploration", "runtime monitoring: the same source built under all 16 component-option subsets, every glyph drawn at masters and random locations and compared with the fully decomposed build",
             "Generated sources with nested, scaled / flipped / rotated (within and beyond +-2), mixed and non-export components are compiled under every subset of {flatten, decompose-all, decompose-transformed, prefer-simple-glyphs=false}; resolved outlines (contours up to start point / direction) and advances must agree with the decompose-all build within the property's rounding bound at every master, and within a looser bound in between.",
             "skrifa only renders (resolves components, applies gvar); the tolerance per nesting level is 1.05 units plus 2 x (scale-1) for scaled components whose base-glyph rounding is magnified; off-master locations use a looser bound (gross changes only).", "DESIGN.md §5 C12"),
+    "C09": ("exploration", "runtime monitoring: compiled GPOS kern lookups applied by an independent raw-bytes PairPos + VariationIndex interpreter at every kerning master, compared with the UFO kerning lookup algorithm run on the manifest",
+            "Generated sources with group / glyph pairs, exceptions both ways, zero pairs, .5 ties, per-master divergent or missing groups, pairs in only some masters, masters without kerning and > 256 pairs are compiled by the real CLI; for every master that defines kerning and every ordered pair of exported glyphs the adjustment the kern feature applies (DFLT and latn) must equal the rounded UFO lookup value on that master's own kerning and groups.",
+            "Domain = one LTR script, no GDEF marks (where the kern writer's script / bidi / mark splitting is the identity); +-1 tolerated only when a contributing region scalar is fractional (intermediate masters).", "DESIGN.md §5 C09"),
+    "C10": ("exploration", "runtime monitoring: compiled MarkBasePos / MarkMarkPos / MarkLigPos + GDEF decoded from raw bytes and evaluated (with the variation store) at every master, compared with the source anchors in the manifest",
+            "Generated sources with base, stacking-mark and ligature-component anchors under several names, varying per master, with explicit public.openTypeCategories are compiled; every (attaching glyph / component, mark) pair that shares an anchor name must be attached by a lookup reachable from mark/mkmk with anchors equal to the rounded source anchors at each master, nothing else may be attached, and source marks must be GDEF class 3.",
+            "Classification is taken from explicit public.openTypeCategories (sources without them are not asserted); anchor propagation through composites is not generated for UFO sources.", "DESIGN.md §5 C10"),
 }
 
 NOT_YET = {}
